@@ -53,6 +53,9 @@ def run(args):
     nf, no = RJ.check(rep, "C02", VALUE_FUNCS, obs="return", clause="value", entire=True)
     nf2, no2 = RJ.check(rep, "C02", {("manif::SGal3TangentBase", "fillE"), ("manif::SO3TangentBase", "ljac")}, obs="outputs", clause="value", entire=True)
     nd = delegation(rep, "C02", DELEGATION, "exp")
+    from . import rules_series
+    ns = rules_series.check(rep, "C02", {"exp"})
+    rep.floor("series_cells", ns, 100)
     rep.floor("switch_functions", nf, 4)
     rep.floor("observables_compared", no + no2, 10)
     rep.floor("delegations", nd, 3)
@@ -60,10 +63,11 @@ def run(args):
         "R-JET (C02.a): for every precision switch feeding the value of exp (SE2Tangent::exp, SO3Tangent::exp, SO3Tangent::ljac as V, SGal3Tangent::fillE) the closed-form arm has no negative-order term and differs from the small-angle arm by less than 1e-9 (double) / 1e-4 (float) at the switch-over |theta| = eps^(1/p)",
         "R-DIV (C02.b): on the small-angle side nothing is divided by a quantity vanishing with theta",
         "R-FWD.delegation (C02.c): SE3 / SE_2_3 / SGal3 exp obtain the rotation from SO3Tangent::exp and the translation-like parts from SO3Tangent::ljac (SGal3 additionally fillE), so the switches above cover them",
+        "R-SERIES.exp (C02.d): for SO2, SE2, SO3, SE3, SE_2_3, SGal3 the closed-form code of exp, interpreted over truncated power series in the tangent (engine/jetnum.py, exact rational coefficients, all directions at once), gives T(exp t) = sum_{k<=5} hat(t)^k/k! + O(|t|^6) cell by cell, hat being the table proved by C07: exp IS the matrix exponential of hat through order 5 at the origin",
         "trusted summary: SO3(AngleAxis(a, n)) has coefficients (n sin(a/2), cos(a/2))",
     ]
     rep.units = ["SE2/SO3/SE3/SE_2_3/SGal3 double drivers"]
     rep.trusted = ["sympy series expansion", "Taylor remainders beyond 8 terms are negligible at |theta| <= 3.5e-3", "clang AST"]
-    rep.assumptions = ["NOT decided: exp = expm(hat) at generic theta, near pi and beyond; rounding error; absence of overflow for |t| <= 1e6"]
+    rep.assumptions = ["NOT decided: exp = expm(hat) beyond order 5 of the Taylor expansion at the origin (generic theta, near pi and beyond); rounding error; absence of overflow for |t| <= 1e6"]
     rep.checker_cmd = "manif-sa plugin + engine/jeteval.py + engine/rules_jet.py"
     return rep.finish()
